@@ -662,6 +662,64 @@ def _run_all(chk, quick, tmp, yara, yarac, shim, model, slots, info, replay_spec
                 chk.violation("compiled:single", "single file %s: source rules vs yarac output differ" % os.path.relpath(p, root),
                               tree_replay({"kind": "compiled-single", "file": os.path.relpath(p, root), "outs": [a[1][:300], b[1][:300], c[1][:300]]}))
 
+    # ---------------------------------------------------------------- a limit hit in one file must not change later files
+    # In directory / scan-list mode every thread keeps ONE scanner for all the files it dequeues.  A string that hits
+    # YR_MAX_STRING_MATCHES in one file is disabled for the rest of THAT scan only; if any of it survives in the scanner,
+    # which later files lose matches depends on which thread scanned what, i.e. on the thread count and the schedule.
+    # Rule set with many more strings than rules (the per-string and per-rule scanner state differ in size), the capped
+    # string beyond index 64; reference = one yara process per file.
+    lim_dir = os.path.join(tmp, "limtree")
+    os.makedirs(os.path.join(lim_dir, "sub"), exist_ok=True)
+    nmark = 70
+    lim_rules = os.path.join(tmp, "lim.yar")
+    open(lim_rules, "w").write("rule known_markers { strings: %s condition: any of them }\n"
+                               "rule nop_sled { strings: $nop = { 90 90 90 90 90 90 90 90 } condition: $nop }\n"
+                               % " ".join('$m%d = "mark%03d_"' % (i, i) for i in range(nmark)))
+    lim_files = []
+    for i in range(2):
+        q = os.path.join(lim_dir, "a_big%d.bin" % i)
+        open(q, "wb").write(b"\x90" * (1200000 + i))
+        lim_files.append(q)
+    for i in range(14 if quick else 80):
+        q = os.path.join(lim_dir, "sub" if i % 2 else "", "small_%02d.bin" % i)
+        open(q, "wb").write(b"hdr " + b"\x90" * 24 + (" mark%03d_ " % rng.below(nmark)).encode() + b"tail")
+        lim_files.append(q)
+    q = os.path.join(lim_dir, "text.txt")
+    open(q, "wb").write(b"no sled here, mark005_ only\n")
+    lim_files.append(q)
+    lim_yc = os.path.join(tmp, "lim.yarc")
+    sh([yarac, lim_rules, lim_yc], timeout=HANG_S)
+    ref = []
+    for q in lim_files:
+        rc, out, err = sh([yara, "-w", lim_rules, q], timeout=HANG_S)
+        ref += [l for l in out.split("\n") if l]
+        evals += 1
+    ref.sort()
+    lim_list = os.path.join(tmp, "lim_list.txt")
+    open(lim_list, "w").write("\n".join(lim_files) + "\n")        # the big files first
+    lim_runs = [("scan list, %d thread(s), %s rules" % (n, form), [yara, "-w", "-p", str(n)] + rargs + ["--scan-list", lim_list])
+                for n in ([1, 2, 4] if quick else [1, 2, 3, 4, 8]) for form, rargs in (("source", [lim_rules]), ("compiled", ["-C", lim_yc]))]
+    lim_runs += [("directory -r, %d thread(s)" % n, [yara, "-w", "-p", str(n), "-r", lim_rules, lim_dir]) for n in ([1, 2, 8] if quick else [1, 2, 3, 4, 8, 32])]
+    for name, cmd in lim_runs:
+        rc, out, err = sh(cmd, timeout=HANG_S)
+        evals += 1
+        distinct.add(("limit-history", name))
+        got = sorted(l for l in out.split("\n") if l)
+        if rc == "timeout":
+            chk.violation("hang", "limit scenario, %s: does not terminate" % name, {"kind": "limit-history", "cmd": cmd[1:]})
+        elif got != ref:
+            missing_l = [l for l in ref if l not in got]
+            extra_l = [l for l in got if l not in ref]
+            chk.violation("limit-history", "%s: a string that hit the matches-per-string limit in one file changes the results of files scanned later by "
+                          "the same thread: %d expected line(s) missing, %d unexpected (first: %s); reference = one yara process per file"
+                          % (name, len(missing_l), len(extra_l), [x.replace(tmp, "<tmp>") for x in (missing_l + extra_l)[:3]]),
+                          {"kind": "limit-history", "rules": open(lim_rules).read()[:3000], "cmd": [os.path.basename(cmd[0])] + [c.replace(tmp, "<tmp>") for c in cmd[1:]],
+                           "files": "2 files of 1.2 MB 0x90 (more than YR_MAX_STRING_MATCHES matches of $nop), then small files with a 24-byte sled "
+                                    "and one marker each, listed/named after the big ones",
+                           "missing": [x.replace(tmp, "<tmp>") for x in missing_l[:10]], "unexpected": [x.replace(tmp, "<tmp>") for x in extra_l[:10]]})
+        else:
+            chk.add("limit_history_runs_equal_to_per_file_reference")
+
     # ---------------------------------------------------------------- exit status <-> errors reported
     missing = os.path.join(tmp, "does_not_exist")
     badrule = os.path.join(tmp, "bad.yar")
